@@ -38,6 +38,7 @@ class Decider:
         self.choose = choose
         self.bits = []
         self.on_mark = on_mark
+        self.no_idle = on_mark is not None   # searching for a trace: an iteration that does nothing is never needed
 
     def next(self, kind, node, st):
         b = bool(self.choose(kind, node, st, len(self.bits)))
@@ -104,7 +105,11 @@ def run(sc, st, dec):  # noqa: C901
         return run(sc[1] if dec.next('choice', sc, st) else sc[2], st, dec)
     if k == 'loop':
         while dec.next('loop', sc, st):
+            before = (len(st.trace), st.next, tuple(sorted(st.flags.items()))) if dec.no_idle else None
             r = run(sc[1], st, dec)
+            if before is not None and r in ('norm', 'cont') and \
+                    before == (len(st.trace), st.next, tuple(sorted(st.flags.items()))):
+                raise Abort()
             if r == 'brk':
                 return 'norm'
             if r not in ('norm', 'cont'):
